@@ -16,6 +16,11 @@ class is fixed in a harness-side ground-truth table (never computed with xDSL's 
              removable (unknown effects) and its successors ARE control-flow edges
   rec (scf.if, RecursiveMemoryEffect)     removable iff every nested non-terminator op is removable
   pure op with a region (test.pureop holding pure/read/alloc ops) removable when unused
+  rec-mb (RecursiveMemoryEffect op whose region holds 1..3 BLOCKS: the real omp.parallel, and the harness op c13.rec
+             with 0 or 1 results) removable iff every op -- terminators included -- of every block REACHABLE from the
+             entry block of its region is harmless: leaf ops by the rows above; terminators by the table HARMLESS_TERMS:
+             cf.switch, omp.terminator, scf.yield and the harness terminator c13.pterm declare themselves Pure, whereas
+             cf.br, cf.cond_br and test.termop declare no effects at all (unknown => the container is never removable)
 
 Programs: a region with <= 3 blocks inside `builtin.module { test.op { ... } }` ("cfg" container, SSA
 dominance enforced by the generator because xDSL's verifier does not check it; a use inside an
@@ -25,9 +30,22 @@ block of a builtin.module nested in the top-level module ("ngraph": a graph regi
 successor assignments and all operand wirings (incl. dead cycles through block arguments,
 uses from unreachable blocks, values captured by nested regions) are enumerated.
 
+Family "mb" (multi-block bodies of RecursiveMemoryEffect containers): in the single block ^0(%a) of the cfg container
+  [D]  <omp.parallel | c13.rec> ({ ^i0: leaf* term  ^i1: leaf* term  [^i2: leaf* term] })  [user of the result]  test.termop
+every placement of <= max_leaf leaf ops (pure/read/alloc-own/alloc-anon/write/unknown) over the entry and the later blocks x
+every terminator kind per block (Pure and unknown ones, 0..2 successors) x every successor assignment among the non-entry
+blocks (so later blocks are reachable, unreachable, self-looping) x every dominance-correct operand wiring (nested operands
+may capture %a and the D in front) x how the surroundings use the container (no result; result unused / operand of the outer
+terminator / of an unused pure op / of an unknown op).  For a live container the reference also decides the nested ops (an op
+of an unreachable nested block is dead) and after the dce pass exactly the reachable nested blocks must remain
+[C13|dce-pass|left-unreachable-block|nested].  A container whose only non-removable ops sit in UNREACHABLE blocks of its
+region is reference-dead: the dce pass must not leave it behind [..|left-dead-op|rec-mb-unreachable-effect|..]; the one-op-at-
+a-time sweeps (which never delete blocks) may keep it.
+
 Entry points: the `dce` pass, region_dce(region) with a listener, dce(module), the trivial-dead path of
 GreedyRewritePatternApplier with no patterns (recursive and single forward sweep) and the
-`canonicalize` pass (no pattern of the alphabet can fire: scf.if only folds arith.constant conditions).
+`canonicalize` pass (no pattern of the alphabet can fire: scf.if only folds arith.constant conditions; the omp.parallel
+spaces of family "mb" skip canonicalize because the cf.* canonicalization patterns rewrite their terminators).
 
 Oracle: reference liveness computed on the DESCRIPTION (pure data): least fixpoint of
   live(op) := context(op) and (non-removable(op) or some result has a live user)
@@ -43,7 +61,9 @@ the region of an op the pass removed] and exactly the reachable blocks remain [C
 for the recursive trivially-dead sweeps (greedy, dce()) no removable op without uses remains at their fixpoint
 [C13|<entry>|left-trivially-dead|<class>]; (3) surviving effectful ops keep order and block
 [C13|<entry>|effect-order-changed]; (4) the result verifies and mc.irinv is clean (checked whenever the entry point
-removed or created something).  <class> is the ground-truth class ("rec-effectful" = scf.if holding a non-removable op).
+removed or created something).  <class> is the ground-truth class ("rec-effectful" = scf.if holding a non-removable op,
+"rec-mb-effectful" = multi-block container with a non-removable op in a reachable block).  Ops for which either answer is
+accepted (memref.alloc, containers holding one) and that the pass keeps count as live for assertion (2): what they use stays.
 """
 from __future__ import annotations
 
@@ -88,7 +108,25 @@ KINDS: dict[str, tuple[str, int, int, int, str | None]] = {
     "XT0": ("unregistered-terminator", 0, 0, 0, None),  # "foo.br"() : () -> ()            (builtin UnregisteredOp)
     "XB0": ("unregistered-terminator", 0, 0, 1, None),  # "foo.br"() [^b]
     "XC": ("unregistered-terminator", 1, 0, 2, None),   # "foo.br"(v) [^a, ^b]
+    # ---- RecursiveMemoryEffect containers whose region holds SEVERAL blocks ("mb" family, see mb_skeletons)
+    "OP": ("rec", 0, 0, 0, "mb"),         # omp.parallel ({ multi-block body })              (real registered op)
+    "RC0": ("rec", 0, 0, 0, "mb"),        # c13.rec ({ multi-block body }) : () -> ()        (harness op, RecursiveMemoryEffect only)
+    "RC1": ("rec", 0, 1, 0, "mb"),        # c13.rec ({ multi-block body }) : () -> i1
+    # terminators of the inner blocks; HARMLESS_TERMS below says which of them declare themselves Pure
+    "OT": ("terminator", 0, 0, 0, None),  # omp.terminator                   Pure
+    "SW1": ("terminator", 1, 0, 1, None),  # cf.switch %f, [default: ^a]      Pure
+    "SW2": ("terminator", 1, 0, 2, None),  # cf.switch %f, [default: ^a, 1: ^b]  Pure
+    "BR": ("terminator", 0, 0, 1, None),  # cf.br ^a                         no effect trait -> unknown
+    "CBR": ("terminator", 1, 0, 2, None),  # cf.cond_br %c, ^a, ^b            no effect trait -> unknown
+    "PT0": ("terminator", 0, 0, 0, None),  # c13.pterm                        harness terminator, Pure
+    "PT1": ("terminator", 0, 0, 1, None),  # c13.pterm [^a]
+    "PT2": ("terminator", 0, 0, 2, None),  # c13.pterm [^a, ^b]
 }
+# ground truth: terminators whose own effects are known and empty (Pure); every other terminator of the table (test.termop,
+# cf.br, cf.cond_br, unregistered ops) has UNKNOWN effects and therefore keeps an enclosing RecursiveMemoryEffect op alive.
+# ("yield" is the implicit scf.yield of the scf.if kinds.)
+HARMLESS_TERMS = ("yield", "OT", "SW1", "SW2", "PT0", "PT1", "PT2")
+MB_CONTAINERS = ("OP", "RC0", "RC1")
 TERMS = ("T0", "T1", "B0", "B1", "C")
 XTERMS = ("XT0", "XB0", "XC")
 PURE_INNER = ("D", "P", "R", "A")      # what a test.pureop region may hold (the op declares itself Pure)
@@ -104,6 +142,8 @@ ENTRIES = ("dce-pass", "region_dce", "dce-fn", "greedy", "greedy-once", "canonic
 #   block   := (n_args, (op, ...))
 #   op      := (kind, operands, successors, inner)
 #   inner   := None | ((op, ...), yield_operands)   nested single block; its terminator is implicit
+#            | ("mb", ((op, ..., terminator op), ...))   multi-block region of an OP/RC0/RC1 container: per block its ops,
+#              the last one is the block's terminator and its successors are indices of blocks of the SAME region
 # values are numbered in definition order: block args, then per op its results, then its nested values.
 
 def _skel_ops(leaf: tuple[str, ...], inner_leaf: tuple[str, ...], budget: int, max_inner: int) -> Iterator[tuple[tuple, int]]:
@@ -279,12 +319,14 @@ def expand(skel: tuple, ordered_succ: bool = True) -> Iterator[tuple]:
 # ------------------------------------------------------------------------------------------------
 # reference analysis on the description
 class Rec:
-    __slots__ = ("kind", "cls", "parent", "block", "operands", "results", "children", "succs")
+    __slots__ = ("kind", "cls", "parent", "block", "operands", "results", "children", "succs", "iblock", "nblocks")
 
-    def __init__(self, kind, cls, parent, block, operands, results, succs=()):
+    def __init__(self, kind, cls, parent, block, operands, results, succs=(), iblock=None):
         self.kind, self.cls, self.parent, self.block = kind, cls, parent, block
         self.operands, self.results, self.succs = operands, results, succs
         self.children: list[int] = []
+        self.iblock = iblock      # nested op of a multi-block container: index of its block in the parent's region
+        self.nblocks = 0          # multi-block container: number of blocks of its region
 
 
 def analyse(desc: tuple) -> tuple[list[Rec], int]:
@@ -299,7 +341,15 @@ def analyse(desc: tuple) -> tuple[list[Rec], int]:
             me = len(recs)
             recs.append(Rec(k, cls, None, b, tuple(operands), tuple(range(nv, nv + nr)), tuple(succs)))
             nv += nr
-            if inner is not None:
+            if inner is not None and inner[0] == "mb":
+                recs[me].nblocks = len(inner[1])
+                for ib, iops in enumerate(inner[1]):
+                    for (ik, ioperands, isuccs, _i) in iops:
+                        icls, _a, inr, _b, _c = KINDS[ik]
+                        recs[me].children.append(len(recs))
+                        recs.append(Rec(ik, icls, me, None, tuple(ioperands), tuple(range(nv, nv + inr)), tuple(isuccs), ib))
+                        nv += inr
+            elif inner is not None:
                 ins, y = inner
                 for (ik, ioperands, _s, _i) in ins:
                     icls, _a, inr, _b, _c = KINDS[ik]
@@ -315,15 +365,44 @@ def analyse(desc: tuple) -> tuple[list[Rec], int]:
     return recs, nv
 
 
-def static_removable(recs: list[Rec], i: int) -> bool | None:
-    """ground truth: may op i go away when none of its results is used?"""
+def inner_reach(recs: list[Rec], i: int) -> set[int]:
+    """blocks of the region of multi-block container i that are reachable from its entry block (the last op of a block
+    is its terminator)"""
     r = recs[i]
+    succs: list[tuple[int, ...]] = [()] * r.nblocks
+    for c in r.children:
+        succs[recs[c].iblock] = recs[c].succs      # the last child of a block wins: its terminator
+    return _reach(succs)
+
+
+def static_removable(recs: list[Rec], i: int, lenient: set[int] | None = None) -> bool | None:
+    """ground truth: may op i go away when none of its results is used?  A multi-block container is judged by the ops of the
+    blocks REACHABLE from its entry (an op that can never execute has no observable effect); containers whose only
+    non-removable ops sit in unreachable blocks are removable and additionally reported in `lenient`"""
+    r = recs[i]
+    if r.cls == "rec" and r.nblocks:
+        reach = inner_reach(recs, i)
+        verdicts: dict[bool, list[bool | None]] = {True: [], False: []}
+        for c in r.children:
+            if recs[c].cls == "terminator":
+                v: bool | None = recs[c].kind in HARMLESS_TERMS
+            else:
+                v = static_removable(recs, c, lenient)
+            verdicts[recs[c].iblock in reach].append(v)
+        if any(v is False for v in verdicts[True]):
+            return False
+        if any(v is None for v in verdicts[True]):
+            return None
+        if lenient is not None and any(v is not True for v in verdicts[False]):
+            lenient.add(i)
+        return True
     if r.cls == "rec":
         return all(static_removable(recs, c) is True for c in r.children if recs[c].cls != "terminator")
     return REMOVABLE[r.cls]
 
 
-def reference(desc: tuple) -> dict[str, Any]:
+def reference(desc: tuple, forced: frozenset[int] = frozenset()) -> dict[str, Any]:
+    """forced: ops to treat as never removable (the "either answer accepted" ops an entry point decided to keep)"""
     container, blks = desc
     recs, nv = analyse(desc)
     if container in GRAPHS:
@@ -335,23 +414,33 @@ def reference(desc: tuple) -> dict[str, Any]:
     for i, r in enumerate(recs):
         for v in r.operands:
             users[v].append(i)
-    rem = [static_removable(recs, i) for i in range(len(recs))]
+    lenient: set[int] = set()
+    rem = [False if i in forced else static_removable(recs, i, lenient) for i in range(len(recs))]
+    ireach = {i: inner_reach(recs, i) for i, r in enumerate(recs) if r.nblocks}
     live: set[int] = set()
+
+    def ctx_ok(i: int) -> bool:
+        """can op i execute at all: top level -> its block is reachable; nested -> its parent is live (and, inside a
+        multi-block container, its block is reachable from the container's entry block)"""
+        r = recs[i]
+        if r.parent is None:
+            return r.block in reach
+        return r.parent in live and (r.iblock is None or r.iblock in ireach[r.parent])
+
     changed = True
     while changed:
         changed = False
         for i, r in enumerate(recs):
             if i in live:
                 continue
-            ctx_ok = (r.block in reach) if r.parent is None else (r.parent in live)
-            if not ctx_ok:
+            if not ctx_ok(i):
                 continue
             if rem[i] is False or any(u in live for v in r.results for u in users[v]):
                 live.add(i)
                 changed = True
-    optional = {i for i, r in enumerate(recs) if rem[i] is None and i not in live
-                and ((r.block in reach) if r.parent is None else (r.parent in live))}
-    return {"recs": recs, "reach": reach, "live": live, "optional": optional, "rem": rem, "users": users}
+    optional = {i for i, r in enumerate(recs) if rem[i] is None and i not in live and ctx_ok(i)}
+    return {"recs": recs, "reach": reach, "live": live, "optional": optional, "rem": rem, "users": users,
+            "lenient": lenient, "ireach": ireach, "ctx_ok": ctx_ok}
 
 
 # ------------------------------------------------------------------------------------------------
@@ -362,9 +451,9 @@ _REAL: dict[str, Any] = {}
 def _real() -> dict[str, Any]:
     if _REAL:
         return _REAL
-    from xdsl.dialects.builtin import DenseArrayBase, MemRefType, UnregisteredOp, i1, i64
-    from xdsl.irdl import IRDLOperation, irdl_op_definition, result_def, traits_def
-    from xdsl.traits import EffectInstance, MemoryEffect, MemoryEffectKind
+    from xdsl.dialects.builtin import DenseArrayBase, DenseIntElementsAttr, MemRefType, UnregisteredOp, VectorType, i1, i32, i64
+    from xdsl.irdl import IRDLOperation, irdl_op_definition, region_def, result_def, traits_def, var_result_def, var_successor_def
+    from xdsl.traits import EffectInstance, IsTerminator, MemoryEffect, MemoryEffectKind, Pure, RecursiveMemoryEffect
 
     class AllocOwnResultEffect(MemoryEffect):
         """the only effect is the allocation of the op's own result"""
@@ -379,7 +468,30 @@ def _real() -> dict[str, Any]:
         res = result_def()
         traits = traits_def(AllocOwnResultEffect())
 
+    @irdl_op_definition
+    class RecOp(IRDLOperation):
+        """has exactly the effects of the ops nested in its (possibly multi-block) region"""
+        name = "c13.rec"
+        res = var_result_def()
+        body = region_def()
+        traits = traits_def(RecursiveMemoryEffect())
+
+    @irdl_op_definition
+    class PureTermOp(IRDLOperation):
+        """a branch with 0..n successors that declares itself Pure (like cf.switch / omp.terminator)"""
+        name = "c13.pterm"
+        succ = var_successor_def()
+        traits = traits_def(IsTerminator(), Pure())
+
     _REAL["AllocOwnOp"] = AllocOwnOp
+    _REAL["RecOp"] = RecOp
+    _REAL["PureTermOp"] = PureTermOp
+    _REAL["omp.segments"] = DenseArrayBase.from_list(i32, [0] * 6)
+    # cf.switch %flag : i1, [default: ^a (, 1: ^b)]   -- operand segments (flag, default operands, case operands)
+    _REAL["sw.segments"] = DenseArrayBase.from_list(i32, [1, 0, 0])
+    _REAL["sw.case_segments"] = {1: DenseArrayBase.from_list(i32, []), 2: DenseArrayBase.from_list(i32, [0])}
+    _REAL["sw.case_values"] = DenseIntElementsAttr.from_list(VectorType(i1, [1]), [1])
+    _REAL["cbr.segments"] = DenseArrayBase.from_list(i32, [1, 0, 0])
     _REAL["i1"] = i1
     _REAL["memref"] = MemRefType(i1, [1])
     _REAL["shape"] = DenseArrayBase.from_list(i64, [2])
@@ -398,7 +510,7 @@ class Prog:
 
 
 def build(desc: tuple) -> Prog:
-    from xdsl.dialects import func, memref, scf, shard
+    from xdsl.dialects import cf, func, memref, omp, scf, shard
     from xdsl.dialects.builtin import ModuleOp, StringAttr
     from xdsl.dialects.test import TestOp, TestPureOp, TestReadOp, TestSymbolOp, TestTermOp, TestWriteOp
     from xdsl.ir import Block, Region
@@ -440,6 +552,20 @@ def build(desc: tuple) -> Prog:
             return [TestTermOp.create()]
         if k in XTERMS:
             return [R["foo.br"].create()]
+        if k == "OT":
+            return [omp.TerminatorOp.create()]
+        if k in ("SW1", "SW2"):
+            n = KINDS[k][3]
+            props = {"operandSegmentSizes": R["sw.segments"], "case_operand_segments": R["sw.case_segments"][n]}
+            if n == 2:
+                props["case_values"] = R["sw.case_values"]
+            return [cf.SwitchOp.create(properties=props)]
+        if k == "BR":
+            return [cf.BranchOp.create()]
+        if k == "CBR":
+            return [cf.ConditionalBranchOp.create(properties={"operandSegmentSizes": R["cbr.segments"]})]
+        if k in ("PT0", "PT1", "PT2"):
+            return [R["PureTermOp"].create()]
         raise KeyError(k)
 
     blocks = [Block(arg_types=[i1] * na) for (na, _ops) in blks]
@@ -453,6 +579,24 @@ def build(desc: tuple) -> Prog:
                 p.values.extend(op.results[:KINDS[k][2]])
                 b.add_op(op)
                 pending.append((op, tuple(operands), tuple(succs)))
+                continue
+            if inner[0] == "mb":
+                iblocks = [Block() for _ in inner[1]]
+                if k == "OP":
+                    op = omp.ParallelOp.create(properties={"operandSegmentSizes": R["omp.segments"]}, regions=[Region(iblocks)])
+                else:
+                    op = R["RecOp"].create(result_types=[i1] * KINDS[k][2], regions=[Region(iblocks)])
+                p.ops.append(op)
+                p.values.extend(op.results)
+                b.add_op(op)
+                for iblk, iops in zip(iblocks, inner[1]):
+                    for (ik, ioperands, isuccs, _i) in iops:
+                        iop = mk(ik, None)[0]
+                        iblk.add_op(iop)
+                        p.ops.append(iop)
+                        p.values.extend(iop.results[:KINDS[ik][2]])
+                        # successors of nested terminators name blocks of the container's own region
+                        pending.append((iop, tuple(ioperands), tuple(iblocks[x] for x in isuccs)))
                 continue
             ins, y = inner
             ib = Block()
@@ -492,7 +636,7 @@ def build(desc: tuple) -> Prog:
         if operands:
             op.operands = [p.values[v] for v in operands]
         if succs:
-            op.successors = [blocks[s] for s in succs]
+            op.successors = [blocks[s] if isinstance(s, int) else s for s in succs]
     if container == "graph":
         p.module = ModuleOp(Region(blocks))
         p.region = p.module.body
@@ -544,7 +688,7 @@ def check_program(st: Stats, desc: tuple, entries: tuple[str, ...] = ENTRIES) ->
 
     ref = reference(desc)
     recs, live, optional, rem, users = ref["recs"], ref["live"], ref["optional"], ref["rem"], ref["users"]
-    reach = ref["reach"]
+    reach, lenient, ireach, ctx_ok = ref["reach"], ref["lenient"], ref["ireach"], ref["ctx_ok"]
     n = len(recs)
     dead = set(range(n)) - live
     nontrivial = bool(dead - optional)
@@ -560,9 +704,11 @@ def check_program(st: Stats, desc: tuple, entries: tuple[str, ...] = ENTRIES) ->
         st.violate(sig, what, w)
 
     def cls_of(i: int) -> str:
+        if recs[i].cls == "rec" and recs[i].nblocks:      # multi-block container
+            return "rec-mb-effectful" if rem[i] is False else "rec-mb-unreachable-effect" if i in lenient else "rec-mb"
         return "rec-effectful" if recs[i].cls == "rec" and rem[i] is False else recs[i].cls
 
-    def captured(i: int, seen: set[int]) -> bool:
+    def captured(i: int, seen: set[int], live: set[int]) -> bool:
         """is (reference-dead) op i kept alive only through a use nested in a region op that is itself dead?"""
         seen.add(i)
         for v in recs[i].results:
@@ -571,7 +717,7 @@ def check_program(st: Stats, desc: tuple, entries: tuple[str, ...] = ENTRIES) ->
                     continue
                 if recs[u].parent is not None and recs[u].parent not in live:
                     return True
-                if captured(u, seen):
+                if captured(u, seen, live):
                     return True
         return False
 
@@ -623,11 +769,15 @@ def check_program(st: Stats, desc: tuple, entries: tuple[str, ...] = ENTRIES) ->
         # (2) completeness (dce pass only)
         if entry == "dce-pass":
             st.evaluations += 2
+            # an "either answer accepted" op the pass kept is live from here on: what it (or an op nested in it) uses stays
+            kept_optional = frozenset(surv & optional)
+            ref2 = reference(desc, kept_optional) if kept_optional else ref
+            live2, ctx_ok2 = ref2["live"], ref2["ctx_ok"]
             # ops nested in a leftover dead op are a consequence of their parent being left: blame the outermost ones
-            left = [i for i in sorted((surv & dead) - optional)
-                    if _top_block(recs, i) in reach and (recs[i].parent is None or recs[i].parent in live)]
+            # (ops of an unreachable block of a live multi-block container are left to the block comparison below)
+            left = [i for i in sorted(surv - live2 - ref2["optional"]) if ctx_ok2(i)]
             if left:
-                plain = [i for i in left if not captured(i, set())]
+                plain = [i for i in left if not captured(i, set(), live2)]
                 i = (plain or left)[0]
                 how = "unused" if plain else "used-only-inside-removed-region"
                 viol(f"C13|dce-pass|left-dead-op|{cls_of(i)}|{how}",
@@ -641,6 +791,22 @@ def check_program(st: Stats, desc: tuple, entries: tuple[str, ...] = ENTRIES) ->
                 viol(f"C13|dce-pass|{kind}",
                      f"after the dce pass the region has {len(remaining)} blocks, {len(expect)} are reachable from the entry",
                      entry=entry, reachable=sorted(reach))
+            # the same for the region of every multi-block container that stays
+            for i in sorted(ireach):
+                if i not in live2 or i not in surv:
+                    continue
+                st.evaluations += 1
+                blk_of: dict[int, Any] = {}
+                for c in recs[i].children:
+                    blk_of[recs[c].iblock] = p.opblock[c]
+                expect_in = [blk_of[bi] for bi in sorted(blk_of) if bi in ireach[i]]
+                remaining_in = list(p.ops[i].regions[0].blocks)
+                if len(remaining_in) != len(expect_in) or any(x is not y for x, y in zip(remaining_in, expect_in)):
+                    kind = "left-unreachable-block" if len(remaining_in) > len(expect_in) else "removed-reachable-block"
+                    viol(f"C13|dce-pass|{kind}|nested",
+                         f"after the dce pass the region of op #{i} ({recs[i].kind}) has {len(remaining_in)} blocks, "
+                         f"{len(expect_in)} are reachable from its entry", entry=entry, reachable=sorted(ireach[i]))
+                st.outcomes[f"pass:nested-unreachable-blocks={recs[i].nblocks - len(ireach[i])}"] += 1
             for i in sorted(surv & optional):
                 st.outcomes[f"optional-kept:{recs[i].cls}"] += 1
             for i in sorted(removed):
@@ -652,7 +818,9 @@ def check_program(st: Stats, desc: tuple, entries: tuple[str, ...] = ENTRIES) ->
         if entry in ("greedy", "dce-fn"):
             st.evaluations += 1
             for i in order:
-                if rem[i] is True and not any(u in surv for v in recs[i].results for u in users[v]):
+                # (a sweep looks at one op at a time and never deletes blocks: a container whose effectful ops all sit in
+                # unreachable blocks of its region may stay)
+                if rem[i] is True and i not in lenient and not any(u in surv for v in recs[i].results for u in users[v]):
                     viol(f"C13|{entry}|left-trivially-dead|{cls_of(i)}",
                          f"{entry} (apply_recursively) stopped although op #{i} ({recs[i].kind}) is removable and has no use",
                          entry=entry, survivors=sorted(surv))
@@ -677,10 +845,117 @@ def check_program(st: Stats, desc: tuple, entries: tuple[str, ...] = ENTRIES) ->
         st.outcomes[f"{entry}:removed={'0' if not removed else '1+'}"] += 1
 
 
-def _top_block(recs: list[Rec], i: int) -> int:
-    while recs[i].parent is not None:
-        i = recs[i].parent
-    return recs[i].block
+# ------------------------------------------------------------------------------------------------
+# "mb" family: a RecursiveMemoryEffect container with a MULTI-BLOCK region inside the single block of the cfg container
+#
+#   ^0(%a : i1):  [D]  <container> ({ ^i0: leaf* term   ^i1: leaf* term   [^i2: leaf* term] })  [user]  test.termop [%r]
+#
+# shape (how the container's surroundings use it):
+#   "plain"    container only                                     (any container kind)
+#   "capture"  a pure D in front whose result nested operands may name (any container kind)
+#   "unused" | "term-use" | "pure-use" | "unknown-use"            (RC1 only) the result is unused / an operand of the outer
+#              terminator / the operand of an unused pure op (dead chain) / the operand of an unknown op
+MB_SHAPES0 = ("plain", "capture")
+MB_SHAPES1 = ("unused", "term-use", "pure-use", "unknown-use")
+
+
+def _mb_term_options(terms: tuple[str, ...], nb: int) -> list[tuple[str, tuple[int, ...]]]:
+    """(terminator kind, successors): successors are LATER blocks of the body or the block itself, never the entry block
+    (an entry block has no predecessors); two successors: every unordered pair of distinct non-entry blocks, and (1, 1)
+    when the body has two blocks"""
+    later = range(1, nb)
+    out: list[tuple[str, tuple[int, ...]]] = []
+    for t in terms:
+        ns = KINDS[t][3]
+        if ns == 0:
+            out.append((t, ()))
+        elif ns == 1:
+            out.extend((t, (a,)) for a in later)
+        elif nb == 2:
+            out.append((t, (1, 1)))
+        else:
+            out.extend((t, (a, b)) for a in later for b in later if a < b)
+    return out
+
+
+def _mb_leaf_placements(sp: dict, nb: int) -> Iterator[tuple[tuple[str, ...], ...]]:
+    """per block the sequence of leaf kinds: <= max_leaf ops in total; bodies with >= 2 leaf ops draw from leaf2"""
+    def place(kinds: tuple[str, ...]) -> Iterator[tuple[tuple[str, ...], ...]]:
+        # non-decreasing block assignment keeps the order of the sequence inside each block
+        for where in itertools.combinations_with_replacement(range(nb), len(kinds)):
+            yield tuple(tuple(k for k, w in zip(kinds, where) if w == b) for b in range(nb))
+
+    for n in range(0, sp["max_leaf"] + 1):
+        alpha = sp["leaf"] if n <= 1 else sp.get("leaf2", sp["leaf"])
+        for kinds in itertools.product(alpha, repeat=n):
+            yield from place(kinds)
+
+
+def mb_skeletons(sp: dict, shard: int = 0, nshards: int = 1) -> Iterator[tuple]:
+    """(shape, container kind, ((leaf kinds, (terminator kind, successors)), ...)); the work is split over shards by
+    (container, number of blocks, terminators + successors)"""
+    unit = -1
+    for cont in sp["containers"]:
+        shapes = [x for x in sp["shapes"] if x in (MB_SHAPES1 if KINDS[cont][2] else MB_SHAPES0)]
+        for nb in range(sp.get("min_blocks", 1), sp["max_blocks"] + 1):
+            topts = _mb_term_options(tuple(sp["terms"][cont[:2]]), nb)
+            for terms in itertools.product(topts, repeat=nb):
+                unit += 1
+                if unit % nshards != shard:
+                    continue
+                for leaves in _mb_leaf_placements(sp, nb):
+                    for shape in shapes:
+                        yield (shape, cont, tuple(zip(leaves, terms)))
+
+
+def mb_expand(skel: tuple) -> Iterator[tuple]:
+    """all operand wirings of one mb skeleton.  A nested operand may name %a, the captured D, an earlier result of its own
+    block, and every result of a body block that strictly dominates its block (unreachable block: of any other block)"""
+    shape, cont, body = skel
+    nb = len(body)
+    nv = 1                                   # %a
+    outer_vis = [0]
+    if shape == "capture":
+        outer_vis.append(nv)
+        nv += 1
+    cres = list(range(nv, nv + KINDS[cont][2]))
+    nv += len(cres)
+    res: list[list[list[int]]] = []          # per body block, per op (leaf ops then the terminator)
+    for (leaves, (t, _s)) in body:
+        rr = []
+        for k in leaves + (t,):
+            rr.append(list(range(nv, nv + KINDS[k][2])))
+            nv += KINDS[k][2]
+        res.append(rr)
+    succs = [tuple(s) for (_l, (_t, s)) in body]
+    reach = _reach(succs)
+    slots: list[list[int]] = []
+    for b, (leaves, (t, _s)) in enumerate(body):
+        vis = list(outer_vis)
+        for d in range(nb):
+            if d != b and (b not in reach or (d in reach and b not in _reach(succs, removed=d))):
+                vis.extend(v for r in res[d] for v in r)
+        for oi, k in enumerate(leaves + (t,)):
+            for _ in range(KINDS[k][1]):
+                slots.append(list(vis))
+            vis.extend(res[b][oi])
+    for choice in itertools.product(*slots):
+        it = iter(choice)
+        blocks = []
+        for (leaves, (t, s)) in body:
+            ops = [(k, tuple(next(it) for _ in range(KINDS[k][1])), (), None) for k in leaves]
+            ops.append((t, tuple(next(it) for _ in range(KINDS[t][1])), tuple(s), None))
+            blocks.append(tuple(ops))
+        outer: list[tuple] = []
+        if shape == "capture":
+            outer.append(("D", (), (), None))
+        outer.append((cont, (), (), ("mb", tuple(blocks))))
+        if shape == "pure-use":
+            outer.append(("P", (cres[0],), (), None))
+        elif shape == "unknown-use":
+            outer.append(("U", (cres[0],), (), None))
+        outer.append(("T1", (cres[0],), (), None) if shape == "term-use" else ("T0", (), (), None))
+        yield ("cfg", ((1, tuple(outer)),))
 
 
 # ------------------------------------------------------------------------------------------------
@@ -712,6 +987,40 @@ def spaces(quick: bool) -> list[dict]:
              entry_args=(0,), other_args=(0, 1), terms=("T0", "XT0", "B0", "XB0", "XC"), ordered_succ=False,
              require_term=XTERMS, entries=("dce-pass", "dce-fn", "greedy", "canonicalize")),
     ]
+    # ---- RecursiveMemoryEffect containers with MULTI-BLOCK regions (family "mb"): omp.parallel with cf.* / omp.terminator /
+    # test.termop terminators and the harness op c13.rec with c13.pterm (Pure) / test.termop terminators; effect classes in the
+    # entry block vs later blocks, pure vs unknown terminators, reachable vs unreachable later blocks, result used / unused.
+    # canonicalize is left out for omp.parallel: the cf.* canonicalization patterns rewrite its terminators.
+    omp_entries = ("dce-pass", "dce-fn", "greedy")
+    rec_entries = ("dce-pass", "dce-fn", "greedy", "canonicalize")
+    if quick:
+        mbt = {"OP": ("OT", "SW1", "SW2", "BR", "T0"), "RC": ("PT0", "PT1", "PT2", "T0", "B0")}
+        leaf1 = ("D", "R", "A", "M", "W0", "U0")
+        leaf2 = ("D", "P", "W0", "U0")
+        rc = dict(family="mb", containers=("RC0", "RC1"), shapes=("capture",) + MB_SHAPES1, terms=mbt, leaf=leaf1, leaf2=leaf2,
+                  entries=rec_entries, shards=48)
+        om = dict(family="mb", containers=("OP",), shapes=MB_SHAPES0, terms=mbt, leaf=leaf1, leaf2=leaf2, entries=omp_entries, shards=48)
+        out += [
+            dict(om, name="mb-omp-2", min_blocks=1, max_blocks=2, max_leaf=2),
+            dict(om, name="mb-omp-3", min_blocks=3, max_blocks=3, max_leaf=1, shapes=("plain",)),
+            dict(rc, name="mb-rec-2", min_blocks=1, max_blocks=2, max_leaf=2),
+            dict(rc, name="mb-rec-3", min_blocks=3, max_blocks=3, max_leaf=1),
+        ]
+    else:
+        mbt = {"OP": ("OT", "SW1", "SW2", "BR", "CBR", "T0"), "RC": ("PT0", "PT1", "PT2", "T0", "B0", "C")}
+        leaf1 = ("D", "P", "R", "A", "M", "W", "W0", "U", "U0")
+        leaf2 = ("D", "P", "W0", "U0")
+        leaf2r = ("D", "P", "R", "A", "W0", "U0")
+        rc = dict(family="mb", containers=("RC0", "RC1"), shapes=MB_SHAPES0 + MB_SHAPES1, terms=mbt, leaf=leaf1, leaf2=leaf2r,
+                  entries=rec_entries)
+        om = dict(family="mb", containers=("OP",), shapes=MB_SHAPES0, terms=mbt, leaf=leaf1, leaf2=leaf2, entries=omp_entries)
+        out += [
+            dict(om, name="mb-omp-2", min_blocks=1, max_blocks=2, max_leaf=3),
+            dict(om, name="mb-omp-3", min_blocks=3, max_blocks=3, max_leaf=2, shapes=("plain",)),
+            dict(om, name="mb-omp-3-capture", min_blocks=3, max_blocks=3, max_leaf=1, shapes=("capture",)),
+            dict(rc, name="mb-rec-2", min_blocks=1, max_blocks=2, max_leaf=2),
+            dict(rc, name="mb-rec-3", min_blocks=3, max_blocks=3, max_leaf=1),
+        ]
     if not quick:
         # the larger spaces skip the two entry points that add least: greedy-once is the first sweep of greedy, region_dce is
         # what the pass calls (both still run on every program of the spaces above)
@@ -731,14 +1040,15 @@ def _shard(arg) -> Stats:
     sp, shard, nshards, seed = arg
     st = Stats()
     count = 0
-    for si, skel in enumerate(skeletons(sp)):
-        if si % nshards != shard:
+    mb = sp.get("family") == "mb"
+    for si, skel in enumerate(mb_skeletons(sp, shard, nshards) if mb else skeletons(sp)):
+        if not mb and si % nshards != shard:
             continue
         st.bump("skeletons")
-        for desc in expand(skel, sp.get("ordered_succ", True)):
+        for desc in (mb_expand(skel) if mb else expand(skel, sp.get("ordered_succ", True))):
             check_program(st, desc, tuple(sp.get("entries", ENTRIES)))
             count += 1
-            if (count + seed) % 2003 == 0:
+            if (count + seed) % (499 if mb else 2003) == 0:
                 st.sample({"space": sp["name"], "desc": desc})
     st.bump("programs:" + sp["name"], count)
     return st
@@ -747,7 +1057,7 @@ def _shard(arg) -> Stats:
 def run(ctx):
     sps = spaces(ctx.quick)
     n = 192
-    tasks = [(sp, i, n, ctx.seed) for sp in sps for i in range(n)]
+    tasks = [(sp, i, sp.get("shards", n), ctx.seed) for sp in sps for i in range(sp.get("shards", n))]
     for _, st in pmap(_shard, tasks):
         ctx.merge(st)
     ctx.bounds = {"spaces": [{k: (list(v) if isinstance(v, tuple) else v) for k, v in sp.items()} for sp in sps],
@@ -755,12 +1065,18 @@ def run(ctx):
     ctx.rule = ("every program of each listed space: skeleton (block-argument counts, op kinds, nested bodies) x all successor "
                 "assignments x all operand wirings the generator's SSA-dominance rule admits (graph container: every value of the "
                 "block); each program is rebuilt and run through every entry point; states = programs, transitions = entry-point "
-                "runs; non-trivial = the reference liveness finds at least one removable dead op.  'Program results are unchanged' "
+                "runs; family 'mb' spaces: (use shape, container kind, per nested block its leaf kinds + terminator kind + successors) "
+                "x all dominance-correct operand wirings, see mb_skeletons/mb_expand (successors of nested terminators: non-entry "
+                "blocks only; two successors: unordered pairs of distinct blocks, (1,1) in two-block bodies; bodies with >= 2 leaf "
+                "ops draw them from leaf2); non-trivial = the reference liveness finds at least one removable dead op.  'Program results are unchanged' "
                 "is implied by (1) removed subset-of reference-dead + (3) surviving effectful ops keep order/block, because in this "
                 "alphabet an op influences the result only through its effects or through a use chain ending in an effectful op/terminator")
     ctx.assumptions = [
         "ground-truth effect table in props/c13.py (pure/read/alloc-of-own-result removable when unused; write/unknown/symbol/terminator never; "
         "scf.if removable iff all nested non-terminators are; memref.alloc: either answer accepted)",
+        "multi-block RecursiveMemoryEffect containers (omp.parallel, harness c13.rec): removable iff every op incl. the terminators of "
+        "every block reachable from the entry of their region is harmless; cf.switch / omp.terminator / scf.yield / c13.pterm are Pure, "
+        "cf.br / cf.cond_br / test.termop have unknown effects (table HARMLESS_TERMS); effects in unreachable nested blocks are not observable",
         "successor operands of terminators count as uses (region_dce does not touch block arguments)",
         "an unregistered op that ends a block and carries successors is a branch: its successors are reachable (MLIR's reading of unknown ops)",
         "xDSL's verifier does not check dominance; the generator only emits dominance-correct programs (MLIR rule for unreachable blocks)",
@@ -773,5 +1089,6 @@ def replay(rep) -> bool:
 
     st = Stats()
     w = rep["witness"]
-    check_program(st, tup(w["desc"]))
+    # a witness names the entry point that misbehaved; the other entry points are not part of it
+    check_program(st, tup(w["desc"]), (w["entry"],) if w.get("entry") in ENTRIES else ENTRIES)
     return rep["signature"] not in st.violations
